@@ -22,6 +22,9 @@ type Case struct {
 	// Logger (C19 handle configuration): 0 logger.Discard, 1 stock logger at
 	// Info with ParameterizedQueries, 2 stock logger at Silent, 3 db.Debug().
 	Logger int `json:"logger,omitempty"`
+	// Prefix (C19): number of leading calls applied to the receiver BEFORE
+	// Session{DryRun:true} / ToSQL is taken from it.
+	Prefix int `json:"receiver_prefix,omitempty"`
 }
 
 // Slot is one argument position of a resolved program.
@@ -119,21 +122,50 @@ func NumSlots(ops []*Op, f *Fin) int {
 // Run applies the program to db (which must be a clone-1 handle such as
 // gorm.Open's result or a Session) and returns the finisher's result and the
 // argument values used.
-func (p *Prog) Run(db *gorm.DB) (*gorm.DB, []Val) {
-	base := db.Session(&gorm.Session{NewDB: true})
+func (p *Prog) Run(db *gorm.DB) (*gorm.DB, []Val) { return p.RunSplit(db, 0, nil) }
+
+// RunSplit applies the first k calls to db (the "receiver prefix"), hands the
+// resulting handle to enter — which may derive a session from it or call
+// ToSQL on it and must call body exactly once with the handle to continue on —
+// and applies the remaining calls and the finisher inside body. enter == nil
+// continues on the prefix handle itself.
+func (p *Prog) RunSplit(db *gorm.DB, k int, enter func(h *gorm.DB, body func(tx *gorm.DB) *gorm.DB)) (*gorm.DB, []Val) {
+	rootBase := db.Session(&gorm.Session{NewDB: true})
 	vals := make([]Val, len(p.Slots))
 	for i, s := range p.Slots {
-		vals[i] = Make(s.Class, s.ID, base)
+		vals[i] = Make(s.Class, s.ID, rootBase)
 	}
-	k := 0
-	tx := db
-	for i, o := range p.Ops {
+	if k > len(p.Ops) {
+		k = len(p.Ops)
+	}
+	off := 0
+	h := db
+	for i := 0; i < k; i++ {
+		o := p.Ops[i]
 		n := len(o.Slots)
-		tx = o.Apply(tx, &Ctx{P: i + 1, Model: p.Case.Model, Base: base}, vals[k:k+n])
-		k += n
+		h = o.Apply(h, &Ctx{P: i + 1, Model: p.Case.Model, Base: rootBase}, vals[off:off+n])
+		off += n
 	}
-	tx = p.Fin.Run(tx, &Ctx{P: 4, Model: p.Case.Model, Base: base}, vals[k:])
-	return tx, vals
+	var out *gorm.DB
+	body := func(tx *gorm.DB) *gorm.DB {
+		// the finisher's own base handle must inherit the mode (DryRun) of tx
+		base := tx.Session(&gorm.Session{NewDB: true})
+		o2 := off
+		for i := k; i < len(p.Ops); i++ {
+			o := p.Ops[i]
+			n := len(o.Slots)
+			tx = o.Apply(tx, &Ctx{P: i + 1, Model: p.Case.Model, Base: base}, vals[o2:o2+n])
+			o2 += n
+		}
+		out = p.Fin.Run(tx, &Ctx{P: 4, Model: p.Case.Model, Base: base}, vals[o2:])
+		return out
+	}
+	if enter == nil {
+		body(h)
+	} else {
+		enter(h, body)
+	}
+	return out, vals
 }
 
 // MustAppear reports whether slot i has to be rendered (its column with its
@@ -173,6 +205,11 @@ func (p *Prog) MustAppear(i int, v Val) bool {
 func (p *Prog) ReturningIntoNoScanDest() bool {
 	if !p.Fin.NoScanDest {
 		return false
+	}
+	// model U has database-default columns, so gorm itself adds RETURNING with
+	// columns to every create: a []map destination cannot receive them either
+	if p.Case.Model == ModelU && strings.Contains(p.Fin.Label, "[]map") {
+		return true
 	}
 	for _, o := range p.Ops {
 		if o.Clause == "RETURNING" {
@@ -224,6 +261,9 @@ func (p *Prog) String() string {
 			agu = " AllowGlobalUpdate=by-session"
 		}
 	}
+	if p.Case.Prefix > 0 {
+		agu += fmt.Sprintf(" receiver-prefix=%d", p.Case.Prefix)
+	}
 	if p.Case.Logger > 0 {
 		agu += " logger=" + []string{"discard", "info+parameterized", "silent", "debug()"}[p.Case.Logger]
 	}
@@ -268,7 +308,7 @@ func (s Shape) Prog(classes []int) *Prog {
 
 // FullCase returns the serialisable form of a resolved program.
 func (p *Prog) FullCase() Case {
-	c := Case{Model: p.Case.Model, Fin: p.Fin.Label, Readable: p.String(), Strict: p.Case.Strict, SessionAGU: p.Case.SessionAGU, Logger: p.Case.Logger}
+	c := Case{Model: p.Case.Model, Fin: p.Fin.Label, Readable: p.String(), Strict: p.Case.Strict, SessionAGU: p.Case.SessionAGU, Logger: p.Case.Logger, Prefix: p.Case.Prefix}
 	for _, o := range p.Ops {
 		c.Ops = append(c.Ops, o.Label)
 	}
@@ -357,6 +397,81 @@ func Shapes(models []int, seqs [][]*Op, fins []*Fin) []Shape {
 		}
 	}
 	return out
+}
+
+// CyclicShapes gives every call sequence perSeq finishers (and one model)
+// chosen cyclically, so that over all sequences every (call, finisher),
+// (call, call) and (call, model) pair occurs although the full product
+// sequences x finishers x models is not formed (pairwise covering).
+func CyclicShapes(models []int, seqs [][]*Op, fins []*Fin, perSeq int) []Shape {
+	idx := map[*Op]int{}
+	for i, o := range Ops {
+		idx[o] = i
+	}
+	var out []Shape
+	for n, s := range seqs {
+		h := 0
+		for pos, o := range s {
+			h += idx[o] * (1 + 2*pos) // position-dependent, so (a,b) and (b,a) differ
+		}
+		for k := 0; k < perSeq; k++ {
+			f := fins[(h*perSeq+k)%len(fins)]
+			out = append(out, Shape{Model: models[(n+k)%len(models)], Ops: s, Fin: f})
+		}
+	}
+	return out
+}
+
+// PairwiseVectors calls f with the default class vector and with one vector
+// per clause call in which exactly one slot of that call deviates; which
+// (slot, class) deviates is chosen by the identity of the OTHER calls (+salt),
+// so that over all partners of a call every class occurs at every one of its
+// slots (pairwise covering of call x partner and slot x class instead of the
+// full product). restrict limits the classes (nil = all admissible ones).
+func (s Shape) PairwiseVectors(salt int, restrict []Class, f func(classes []int)) {
+	specs := s.slotSpecs()
+	vec := make([]int, len(specs))
+	for i, sp := range specs {
+		vec[i] = int(sp.Classes[0])
+	}
+	f(vec)
+	idx := map[*Op]int{}
+	for i, o := range Ops {
+		idx[o] = i
+	}
+	off := 0
+	for pos, o := range s.Ops {
+		type dv struct{ slot, class int }
+		var devs []dv
+		for j, sp := range o.Slots {
+			for _, c := range sp.Classes[1:] {
+				ok := restrict == nil
+				for _, r := range restrict {
+					if r == c {
+						ok = true
+					}
+				}
+				if ok {
+					devs = append(devs, dv{off + j, int(c)})
+				}
+			}
+		}
+		off += len(o.Slots)
+		if len(devs) == 0 {
+			continue
+		}
+		other := salt
+		for q, o2 := range s.Ops {
+			if q != pos {
+				other += idx[o2]
+			}
+		}
+		d := devs[other%len(devs)]
+		old := vec[d.slot]
+		vec[d.slot] = d.class
+		f(vec)
+		vec[d.slot] = old
+	}
 }
 
 // slotSpecs lists the slot specs of a shape in program order.
